@@ -1,23 +1,29 @@
 """C18 - kernel (DFT) fitting: structural clauses.
 
-Decided statically by abstract interpretation of psd_dft, psd_dft_kernel_fit, _load_kernel and bspline over uninterpreted
-array terms (every numpy / pandas / scipy call builds a term, the optimiser and the interpolator constructors are
-summarised, every branch on data is forked):
-  K-bounds    the optimiser is called with a bounds-honouring method and a lower bound 0 on every variable
-  K-objective the objective is sum((kernel_loading(x) - loading)^2) with kernel_loading(x) = sum_w kernel_points * x_w,
-              kernel_points being the kernel interpolators evaluated at the fitted pressures
+Decided statically by abstract interpretation of psd_dft, psd_dft_kernel_fit, _load_kernel and bspline.  pandas / scipy calls build
+uninterpreted terms, the optimiser, the interpolator constructors and splev are summarised, every branch on data is forked.  The
+array algebra of the fit (broadcast products, sums over axes, squares, ediff1d / diff, cumsum, stack / transpose / slicing ...) is
+carried out by the checker's own numpy on *symbolic elements* (pgverif/ndsym.py) for a small instance - a kernel table with 2 width
+columns w_0, w_1, 3 fitted pressures, smoother outputs of 2 and of 3 samples - so that what the code computes is a closed sympy
+expression per element, compared with the property's equation by exact normalisation (spelling of the arithmetic is irrelevant):
+  K-bounds    the optimiser is called with a bounds-honouring method, one variable per kernel isotherm and a lower bound >= 0 on each
+  K-objective objective(x) == sum_p (sum_w k_w(P_p) * x_w - L_p)^2, k_w being the interpolator built over table column w evaluated
+              at the pressures passed in
   K-success   `not result.success` -> CalculationError on every path
-  K-report    fitted isotherm = kernel_loading(result.x) of the same result; distribution = result.x / bin widths, smoothed
-              by bspline; cumulative = cumsum(returned distribution * ediff1d(returned widths)) on every path
+  K-report    fitted isotherm == sum_w k_w(P_p) * result.x_w; the smoother receives the table's widths and result.x_w / (w_w - w_(w-1))
+              with the caller's order; the returned widths / distribution are its outputs; cumulative == cumsum(d_i * (bw_i - bw_(i-1)))
+              of the *returned* arrays, on every path and for both output lengths
   K-range     a pressure outside the kernel table raises CalculationError (the interpolators built by _load_kernel refuse to
-              extrapolate and the ValueError is converted)
+              extrapolate and the ValueError is converted); every interpolator is built over the table's pressure index and the
+              values of its own column; a second load returns the cached kernel
   K-limits    the arrays handed to the fit are the [minimum:maximum+1] slices of the isotherm arrays with indices from
-              searchsorted on the pressure: no other flow from the unsliced arrays (non-interference)
-  K-spline    bspline returns its input for degree 0 and otherwise evaluates a B-spline whose control points are the data
-              (convex-hull property: non-negative control points give a non-negative curve); both outputs from one evaluation
+              searchsorted on the pressure: no other flow from the unsliced arrays (non-interference, term level)
+  K-spline    bspline returns its input for degree 0 and otherwise evaluates one B-spline whose control points are the data
+              (convex-hull property: non-negative control points give a non-negative curve); the outputs are the x / y rows of it
   K-data      the shipped kernel table is rectangular, numeric, with increasing positive pressures and widths, loadings >= 0
 Not decided: reproduction of exact combinations within the optimiser tolerance (numerical), monotonicity of the cumulative
-volume as a number (follows from K-bounds + K-spline + K-report for increasing widths, not proved here).
+volume as a number (follows from K-bounds + K-spline + K-report for increasing widths, not proved here).  The instance sizes are
+fixed small numbers: code whose behaviour depends on the array length beyond "equal / different" is outside what is explored.
 """
 from __future__ import annotations
 
@@ -25,9 +31,13 @@ import ast
 import csv
 import os
 
+import numpy
+import sympy as sp
+
 from ..absint import ExtRef, LambdaRef, FuncRef, Obj, Raised, Term, ExcVal, UnknownBool
 from ..core import AnalysisError, Ctx, Finding
 from ..domain import make_interp
+from ..ndsym import eq_arrays, from_np, install_nd, sym_array, to_np
 from ..num import Num
 from ..srcmodel import load
 
@@ -155,43 +165,101 @@ def same(a, b):
     return a == b if type(a) is type(b) else False
 
 
-def match_kernel_loading(t, x, KP):
-    """sum over axis 0 of KP * x[:, newaxis]"""
-    if not (isinstance(t, Term) and t.op == "sum" and is_const(t.args[1], 0)):
-        return f"not a sum over the pore-width axis (axis=0): {t!r}"
-    prod = t.args[0]
-    if not (isinstance(prod, Term) and prod.op == "*"):
-        return f"summand is not a product: {prod!r}"
-    want_x = Term("getitem", [x, (slice(None, None, None), ExtRef("numpy.newaxis"))])
-    l, r = prod.args
-    for kp, xx in ((l, r), (r, l)):
-        if same(kp, KP) and isinstance(xx, Term) and xx == want_x:
-            return None
-    return f"product is not kernel_points * x[:, newaxis]: {prod!r}"
+NW, NPT = 2, 3          # widths (kernel isotherms), fitted pressure points
+NBS = (2, 3)             # samples returned by the smoother: as many as widths (order 0 / equal resampling) and a different number
+WS = [sp.Symbol(f"w_{i}", positive=True) for i in range(NW)]
+
+
+def _syms_in(t):
+    out = []
+    for x in (t.subterms() if isinstance(t, Term) else []):
+        for a in list(x.args) + [v for _, v in x.kw]:
+            for y in (a if isinstance(a, (list, tuple)) else [a]):
+                if isinstance(y, sp.Symbol) and y not in out:
+                    out.append(y)
+    return out
+
+
+def _col_of(it):
+    """index of the table column an interpolator is built over (from its y operand)"""
+    ys = [s_ for s_ in _syms_in(it.attrs.get("y")) if s_ in WS]
+    return WS.index(ys[0]) if len(ys) == 1 else None
+
+
+def kfun(j):
+    return sp.Function(f"k{j}")
+
+
+def mk_nd(model):
+    """term interpreter for the pandas / scipy part + symbolic numpy arrays (ndsym) for the array algebra; the kernel table has NW
+    columns labelled w_0..: iterating the table, its `.columns`, `.keys()` or `.items()` yields them"""
+    I = mk(model)
+    install_nd(I)
+
+    def term_iter(I, v, a, k, n):
+        if v.op in (".items", ".iteritems"):
+            return [(w, Term("getitem", [v.args[0], w])) for w in WS]
+        table = any(st.op == "read_csv" for st in v.subterms())
+        if table and v.op not in (".index", ".values", ".to_numpy", ".T", ".iterrows", ".itertuples", "getitem"):
+            return list(WS)
+        return [Term("elem", [v])]
+    I.libmeth[("Term", "__iter__")] = term_iter
+
+    def interp_call(I, v, a, k, n):
+        outside = I.choose(2, "pressure outside the kernel table") == 0
+        if outside and v.attrs["raises"]:
+            raise I.fault("ValueError", n, "A value in x_new is outside the interpolation range")
+        j = _col_of(v)
+        f = sp.Function(("e" if outside else "k") + (str(j) if j is not None else "_" + v.label.replace("@", "_")))
+        arg = to_np(I, a[0], n)
+        if isinstance(arg, (list, tuple, numpy.ndarray)):
+            return from_np(numpy.vectorize(lambda x_: f(x_), otypes=[object])(numpy.asarray(arg, dtype=object)))
+        return f(arg)
+    I.libmeth[("Interp", "__call__")] = interp_call
+    return I
+
+
+def _is_int(v, c):
+    return (isinstance(v, Num) and v.is_const() and v.value() == c) or (isinstance(v, sp.Basic) and v == c)
+
+
+def _zero(e):
+    try:
+        return sp.expand(sp.sympify(e)) == 0 or sp.simplify(e) == 0
+    except Exception:
+        return False
 
 
 def r_fit(ctx: Ctx, model):
-    ctx.rule("K-bounds / K-objective / K-success / K-report / K-range: psd_dft_kernel_fit + _load_kernel over array terms, all paths")
+    ctx.rule("K-bounds / K-objective / K-success / K-report / K-range: psd_dft_kernel_fit + _load_kernel interpreted over a symbolic "
+             f"{NW}-width x {NPT}-point instance (numpy algebra carried out on symbolic elements), all paths; results compared with the "
+             "property's equations by exact normalisation")
     fi = model.func(f"{PK}.psd_dft_kernel_fit")
-    P, L, ORDER = Term("P"), Term("L"), Term("order")
+    P, L, ORDER = sym_array("P", NPT), sym_array("L", NPT, real=True), sp.Symbol("order", integer=True, nonnegative=True)
     npaths = {"ok": 0, "raise": 0}
-    for preloaded in (False, True):
-        I = mk(model)
+    for preloaded, NB in ((False, NBS[0]), (False, NBS[1]), (True, NBS[1])):
+        I = mk_nd(model)
         cap = {}
 
         def minimize(I, a, k, n):
             cap["fun"], cap["x0"], cap["kw"], cap["node"] = a[0], a[1], dict(k), n
-            X = Term("xvar")
+            x0 = a[1]
+            nvar = len(x0) if isinstance(x0, (list, tuple, numpy.ndarray)) else None
+            cap["nvar"] = nvar
+            X = sym_array("x", nvar if nvar else NW, real=True)
+            cap["X"] = X
             cap["objective"] = I.call_value(a[0], [X], {}, n)
             ok = I.choose(2, "result.success") == 0
-            return Obj(kind="OptRes", label="result", attrs={"x": Term("result.x"), "success": ok, "message": "m", "fun": Term("result.fun")})
+            RX = sym_array("r", nvar if nvar else NW, nonnegative=True)
+            cap["RX"] = RX
+            return Obj(kind="OptRes", label="result", attrs={"x": RX, "success": ok, "message": "m", "fun": sp.Symbol("result_fun"),
+                                                             "status": Num.const(0) if ok else Num.const(9), "nit": Num.const(5)})
         I.ext["scipy.optimize.minimize"] = minimize
         bs = {}
 
         def bspline(I, fi_, env, n):
-            bs["args"] = (env.get("xs"), env.get("ys"), env.get("degree"), env.get("n"), env.get("periodic"))
-            key = [env.get("xs"), env.get("ys"), env.get("degree")]
-            return (Term("bspline.x", key), Term("bspline.y", key))
+            bs.setdefault("calls", []).append((env.get("xs"), env.get("ys"), env.get("degree"), env.get("n"), env.get("periodic")))
+            return (sym_array("bw", NB), sym_array("bd", NB, real=True))
         I.overrides[f"{MU}.bspline"] = bspline
 
         def thunk(I):
@@ -228,7 +296,7 @@ def r_fit(ctx: Ctx, model):
             val, cp, b = oc.value
             ctx.ob(not outside, Finding("C18.K-range", fi.where, "outside-range-accepted",
                                         "a pressure outside the kernel table is accepted: the interpolators built by _load_kernel "
-                                        f"({[o.attrs['ctor'] for o in _interps(cp)] or 'n/a'}) do not raise there (extrapolation), so no CalculationError"),
+                                        "do not raise there (extrapolation), so no CalculationError"),
                    nontrivial_key=("range", "ok", outside))
             ctx.ob(dec.get("result.success") == 0, Finding("C18.K-success", fi.where, "returns-after-failure",
                                                            f"returns although result.success is false/untested (path {dl})"),
@@ -236,24 +304,14 @@ def r_fit(ctx: Ctx, model):
             if outside:
                 continue
             _check_call(ctx, fi, cp, P, L)
-            _check_report(ctx, fi, val, cp, b, ORDER, dl)
-    ctx.floor("psd_dft_kernel_fit returning paths", npaths["ok"], 2)
+            _check_report(ctx, fi, val, cp, b, P, ORDER, dl, NB)
+    ctx.floor("psd_dft_kernel_fit returning paths", npaths["ok"], 3)
     ctx.floor("psd_dft_kernel_fit raising paths", npaths["raise"], 4)
 
 
-def _interps(cp):
-    out = []
-    obj = cp.get("objective")
-    if isinstance(obj, Term):
-        for st in obj.subterms():
-            for a in st.args:
-                if isinstance(a, Obj) and a.kind == "Interp" and a not in out:
-                    out.append(a)
-    return out
-
-
-def _kernel_points(P):
-    return None
+def _kl(P, X):
+    """the property's kernel loading: sum_w k_w(p) * x_w at every fitted pressure"""
+    return [sum(kfun(j)(P[p]) * X[j] for j in range(NW)) for p in range(NPT)]
 
 
 def _check_call(ctx, fi, cp, P, L):
@@ -262,125 +320,93 @@ def _check_call(ctx, fi, cp, P, L):
     method = kw.get("method")
     ctx.ob(method in BOUNDED_METHODS, Finding("C18.K-bounds", fi.where, "method", f"optimiser method {method!r} does not honour bounds"),
            nontrivial_key=("method", method))
+    nvar = cp.get("nvar")
+    ctx.ob(nvar == NW, Finding("C18.K-bounds", fi.where, "variables", f"the optimiser starts from {cp.get('x0')!r}: one variable per kernel isotherm "
+                               f"({NW} in the analysed instance) required"), nontrivial_key=("nvar", nvar))
     b = kw.get("bounds")
     okb, why = False, f"bounds={b!r}"
-    if isinstance(b, Term) and b.op == "*" and any(isinstance(x, list) for x in b.args):
-        b = next(x for x in b.args if isinstance(x, list))      # [(0, None)] * n: n copies of the listed elements
-    if isinstance(b, list) and b:
-        okb = all(isinstance(e, tuple) and len(e) == 2 and isinstance(e[0], Num) and e[0].is_const() and e[0].value() >= 0 for e in b)
-        why = f"bounds elements {b!r}: every variable needs a lower bound >= 0"
+
+    def nonneg(v):
+        if isinstance(v, Num):
+            return v.is_const() and v.value() >= 0
+        if isinstance(v, (int, float)) and not isinstance(v, bool):
+            return v >= 0
+        if isinstance(v, numpy.ndarray):
+            return all(nonneg(x) for x in v.ravel())
+        if isinstance(v, (list, tuple)):
+            return bool(v) and all(nonneg(x) for x in v)
+        return isinstance(v, sp.Basic) and v.is_nonnegative is True
+    if isinstance(b, numpy.ndarray) and b.ndim == 2:
+        b = [tuple(r) for r in b]
+    if isinstance(b, (list, tuple)) and b:
+        okb = len(b) == NW and all(isinstance(e, (tuple, list)) and len(e) == 2 and nonneg(e[0]) for e in b)
+        why = f"bounds {b!r}: every one of the {NW} variables needs a lower bound >= 0"
     elif isinstance(b, Term) and b.op == "scipy.optimize.Bounds":
         lb = b.args[0] if b.args else dict(b.kw).get("lb")
-        okb = isinstance(lb, Num) and lb.is_const() and lb.value() >= 0
+        okb = nonneg(lb)
         why = f"Bounds lower bound {lb!r}"
     elif b is None:
         why = "no bounds passed: SLSQP inequality constraints alone are only satisfied to tolerance (small negative contributions)"
     ctx.ob(okb, Finding("C18.K-bounds", fi.where, "bounds", why), nontrivial_key=("bounds", repr(b)))
-    # the number of bounds must follow the number of variables: both derived from the kernel's widths
-    x0 = cp.get("x0")
-    # K-objective
-    X = Term("xvar")
-    obj = norm(cp.get("objective"))
+    # K-objective: sum_p (sum_w k_w(P_p) x_w - L_p)^2, k_w being the interpolator of table column w evaluated at the pressures passed in
+    obj = cp.get("objective")
+    X = cp.get("X")
     bad = None
-    KP = None
-    if not (isinstance(obj, Term) and obj.op == "sum"):
-        bad = f"objective is not a sum: {obj!r}"
+    if isinstance(obj, numpy.ndarray):
+        bad = f"the objective returns an array of shape {obj.shape}, not the scalar sum of squares"
+    elif not isinstance(obj, (sp.Basic, Num)):
+        bad = f"objective value {obj!r}"
     else:
-        sq = obj.args[0]
-        if not (isinstance(sq, Term) and sq.op == "**" and is_const(sq.args[1], 2)):
-            bad = f"objective summand is not a square: {sq!r}"
-        else:
-            d = sq.args[0]
-            if not (isinstance(d, Term) and d.op == "-"):
-                bad = f"squared quantity is not a difference: {d!r}"
-            else:
-                l, r = d.args
-                kl = r if (isinstance(l, Term) and l == L) else l if (isinstance(r, Term) and r == L) else None
-                if kl is None:
-                    bad = f"the difference is not taken against the loading passed in: {d!r}"
-                else:
-                    # kernel_points: list of representative interpolator values at P
-                    KP = _find_kp(kl, P)
-                    if isinstance(KP, str):
-                        bad = KP
-                    else:
-                        bad = match_kernel_loading(kl, X, KP)
-                    cp["_kl"] = kl
+        want = sum((kl - L[p]) ** 2 for p, kl in enumerate(_kl(P, X)))
+        got = to_np(None, obj)
+        if not _zero(got - want):
+            bad = f"objective({', '.join(map(str, X))}) = {sp.factor(got)}; required sum over the {NPT} pressures of (sum_w k_w(P_p)*x_w - L_p)^2 " \
+                  "(k_w: interpolator of kernel column w at the fitted pressures)"
     ctx.ob(not bad, Finding("C18.K-objective", fi.where, "objective", f"objective term: {bad}"), nontrivial_key=("objective",))
 
 
-def _find_kp(kl, P):
-    """the kernel_points operand: a list of interpolator values, each interpolator of the loaded kernel applied to P"""
-    if not (isinstance(kl, Term) and kl.op == "sum" and isinstance(kl.args[0], Term) and kl.args[0].op == "*"):
-        return f"kernel_loading is not a sum of products: {kl!r}"
-    for cand in kl.args[0].args:
-        if isinstance(cand, list) and cand and all(isinstance(e, Term) and e.op == "kernel_value" for e in cand):
-            for e in cand:
-                if not (isinstance(e.args[1], Term) and e.args[1] == P):
-                    return f"kernel interpolators are evaluated at {e.args[1]!r}, not at the pressures passed in"
-            return cand
-    return f"no kernel_points operand (interpolators evaluated at the pressures) in {kl.args[0]!r}"
-
-
-def _check_report(ctx, fi, val, cp, b, ORDER, dl):
+def _check_report(ctx, fi, val, cp, b, P, ORDER, dl, NB):
     if not (isinstance(val, tuple) and len(val) == 4):
         ctx.ob(False, Finding("C18.K-report", fi.where, "shape", f"returns {val!r}; (widths, distribution, cumulative, fitted loading) required"))
         return
     w_out, d_out, cum, fitted = val
-    RX = Term("result.x")
-    kl = cp.get("_kl")
-    # fitted isotherm = kernel_loading(result.x)
-    okf = False
-    if kl is not None:
-        want = _subst(kl, Term("xvar"), RX)
-        okf = isinstance(norm(fitted), Term) and norm(fitted) == want
-    ctx.ob(okf, Finding("C18.K-report", fi.where, "fitted-loading",
-                        f"reported fitted isotherm {fitted!r} is not kernel_loading(result.x) of the result that yields the distribution"),
-           nontrivial_key=("fitted",))
-    # bspline inputs: widths W, distribution result.x / ediff1d(W, to_begin=W[0]), degree = order
-    args = b.get("args")
-    okd = False
-    W = None
-    if args:
-        W, dist_pre, deg = norm(args[0]), norm(args[1]), args[2]
-        want_pre = Term("/", [RX, Term("fdiff", [W])])
-        okd = isinstance(dist_pre, Term) and dist_pre == want_pre and isinstance(deg, Term) and deg == ORDER and \
-            args[3] in (None, Num.const(100)) and args[4] in (None, False)
-        ctx.ob(okd, Finding("C18.K-report", fi.where, "distribution",
-                            f"distribution handed to the smoother is {dist_pre!r} (degree {deg!r}); required result.x / ediff1d(widths, to_begin=widths[0]) "
-                            "with the caller's spline order"), nontrivial_key=("dist",))
-        # widths come from the kernel's keys
-        okw = isinstance(W, list) or isinstance(W, Term)
-        ctx.ob(okw, Finding("C18.K-report", fi.where, "widths", f"widths {W!r}"), nontrivial_key=("widths",))
-    else:
-        ctx.ob(False, Finding("C18.K-report", fi.where, "no-smoothing-call", "bspline is not called with the distribution"))
+    RX = cp.get("RX")
+    if RX is None:
+        ctx.ob(False, Finding("C18.K-report", fi.where, "no-optimiser", "the optimiser is not called"))
         return
-    key = [args[0], args[1], args[2]]
-    ok_out = isinstance(w_out, Term) and w_out == Term("bspline.x", key) and isinstance(d_out, Term) and d_out == Term("bspline.y", key)
+    # fitted isotherm = kernel_loading(result.x)
+    okf = eq_arrays(fitted, numpy.array(_kl(P, RX), dtype=object))
+    ctx.ob(okf, Finding("C18.K-report", fi.where, "fitted-loading",
+                        f"reported fitted isotherm {fitted!r} is not kernel_loading(result.x) = sum_w k_w(P_p)*x_w of the result that yields the distribution"),
+           nontrivial_key=("fitted",))
+    calls = b.get("calls") or []
+    if len(calls) != 1:
+        ctx.ob(False, Finding("C18.K-report", fi.where, "no-smoothing-call", f"bspline is called {len(calls)} times with the distribution; exactly once required"))
+        return
+    xs, ys, deg, n_, per = calls[0]
+    want_w = numpy.array(WS, dtype=object)
+    want_d = numpy.array([RX[j] / (WS[j] - (WS[j - 1] if j else 0)) for j in range(NW)], dtype=object)
+    okw = eq_arrays(xs, want_w)
+    ctx.ob(okw, Finding("C18.K-report", fi.where, "widths", f"widths handed to the smoother are {xs!r}; the kernel's column labels in table order required"),
+           nontrivial_key=("widths",))
+    okd = eq_arrays(ys, want_d) and deg == ORDER and (n_ is None or _is_int(n_, 100)) and per in (None, False)
+    ctx.ob(okd, Finding("C18.K-report", fi.where, "distribution",
+                        f"distribution handed to the smoother is {ys!r} (degree {deg!r}); required result.x / ediff1d(widths, to_begin=widths[0]) "
+                        "with the caller's spline order"), nontrivial_key=("dist",))
+    bw, bd = sym_array("bw", NB), sym_array("bd", NB, real=True)
+    ok_out = eq_arrays(w_out, bw) and eq_arrays(d_out, bd)
     ctx.ob(ok_out, Finding("C18.K-report", fi.where, "returned-arrays", f"returned widths / distribution are {w_out!r} / {d_out!r}, not the smoother's outputs"),
            nontrivial_key=("out",))
-    wn, dn = norm(w_out), norm(d_out)
-    want_cum = Term("numpy.cumsum", [Term("*", [dn, Term("fdiff", [wn])])])
-    cumn = norm(cum)
-    okc = isinstance(cumn, Term) and (cumn == want_cum or cumn == Term("numpy.cumsum", [Term("*", list(reversed(want_cum.args[0].args)))]))
+    want_cum = numpy.cumsum(numpy.array([bd[i] * (bw[i] - (bw[i - 1] if i else 0)) for i in range(NB)], dtype=object))
+    okc = eq_arrays(cum, want_cum)
     ctx.ob(okc, Finding("C18.K-report", fi.where, "cumulative",
                         f"cumulative volume is {cum!r} on path {[(l, c) for l, c in dl if 'len' in l] or 'all'}; required cumsum(returned distribution * "
-                        "ediff1d(returned widths, to_begin=returned widths[0]))"), nontrivial_key=("cum", tuple(c for l, c in dl)))
-
-
-def _subst(t, old, new):
-    if isinstance(t, Term):
-        if t == old:
-            return new
-        return Term(t.op, [_subst(a, old, new) for a in t.args], {k: _subst(v, old, new) for k, v in t.kw})
-    if isinstance(t, (list, tuple)):
-        return type(t)(_subst(a, old, new) for a in t)
-    return t
+                        f"ediff1d(returned widths, to_begin=returned widths[0])) (instance: {NW} kernel widths, smoother returns {NB} samples)"), nontrivial_key=("cum", NB, tuple(c for l, c in dl)))
 
 
 def r_load(ctx: Ctx, model):
     ctx.rule("K-range (constructor side): every interpolator _load_kernel stores is built over (pressure index, column values) of the table, cached per path")
-    I = mk(model)
+    I = mk_nd(model)
     fi = model.func(f"{PK}._load_kernel")
 
     def thunk(I):
@@ -406,19 +432,20 @@ def r_load(ctx: Ctx, model):
                                                f"{it.attrs['ctor']}({', '.join(f'{k}={v!r}' for k, v in it.attrs['kw'].items())}) does not raise outside "
                                                "the tabulated pressures: out-of-range isotherm points are extrapolated instead of refused"),
                    nontrivial_key=("raises", it.attrs["ctor"]))
-            # x = index (pressures) of the column, y = its values, for the same column `size`
-            col = None
+            # x = index (pressures) of the table / of the column, y = the values of column `size` of the same table
             x, y = it.attrs["x"], it.attrs["y"]
-            okxy = isinstance(x, Term) and x.op == ".index" and isinstance(y, Term) and y.op == ".values" and x.args[0] == y.args[0] and \
-                isinstance(x.args[0], Term) and x.args[0].op == "getitem" and x.args[0].args[1] == size
-            ctx.ob(okxy, Finding("C18.K-range", fi.where, "interp-operands", f"interpolator for column {size!r} built over x={x!r}, y={y!r}"),
+            col = y.args[0] if isinstance(y, Term) and y.op in (".values", ".to_numpy", "numpy.asarray", "numpy.array") and y.args else y
+            okcol = isinstance(col, Term) and col.op == "getitem" and col.args[1] == size and size in WS
+            tab = col.args[0] if okcol else None
+            okx = okcol and isinstance(x, Term) and x.op == ".index" and (x.args[0] == col or x.args[0] == tab)
+            ctx.ob(okcol and okx, Finding("C18.K-range", fi.where, "interp-operands", f"interpolator for column {size!r} built over x={x!r}, y={y!r}; "
+                                          "the table's pressure index and the values of that column required"),
                    nontrivial_key=("xy",))
-            if okxy:
-                tab = x.args[0].args[0]
+            if okcol and okx:
                 # the table: concat([zero row at pressure 0, raw table])
                 okz = isinstance(tab, Term) and tab.op == "pandas.concat"
                 ctx.ob(okz, Finding("C18.K-range", fi.where, "table", f"interpolated table is {tab!r}"), nontrivial_key=("tab",))
-    ctx.floor("interpolators built by _load_kernel", n, 1)
+    ctx.floor("interpolators built by _load_kernel", n, NW)
 
 
 def r_limits(ctx: Ctx, model):
@@ -565,58 +592,56 @@ def r_path(ctx: Ctx, model):
 
 
 def r_spline(ctx: Ctx, model):
-    ctx.rule("K-spline: bspline is the identity for degree 0 and otherwise an approximating B-spline with the data as control points")
+    ctx.rule("K-spline: bspline is the identity for degree 0 and otherwise an approximating B-spline with the data as control points "
+             "(interpreted over symbolic 3-point data, numpy algebra on symbolic elements)")
     fi = model.func(f"{MU}.bspline")
-    XS, YS = Term("xs"), Term("ys")
+    NC, NS = 3, 4
+    XS, YS = sym_array("xs", NC), sym_array("ys", NC, real=True)
     n = 0
-    for deg in (Num.const(0), Num.const(2), Term("degree")):
+    for deg in (0, 1, 2, 3):
         I = mk(model)
+        install_nd(I)
         cap = {}
 
         def splev(I, a, k, nn):
-            cap["splev"] = (a[0], a[1])
-            return Term("splev", [a[0], a[1]])
+            cap.setdefault("splev", []).append((a[0], a[1]))
+            m = len(a[0]) if isinstance(a[0], (numpy.ndarray, list, tuple)) else NS
+            ev = sym_array("s", 2, m, real=True)
+            return [ev[0], ev[1]]
         I.ext["scipy.interpolate.splev"] = splev
-        for oc in I.explore(lambda I: (cap.clear(), I.call_func(fi, [XS, YS], {"degree": deg}, None), dict(cap))[1:]):
+        for oc in I.explore(lambda I: (cap.clear(), I.call_func(fi, [XS, YS], {"degree": sp.Integer(deg), "n": sp.Integer(NS)}, None), dict(cap))[1:]):
             if oc.kind == "raise":
                 ctx.ob(oc.exc.is_a("ParameterError") and not oc.exc.fault, Finding("C18.K-spline", fi.where, f"raises:{oc.exc.name}", f"bspline raises {oc.exc}"),
                        nontrivial_key=("spl-raise",))
                 continue
             n += 1
             val, cp = oc.value
-            dl = list(oc.decisions)
-            zero = is_const(deg, 0) or any("== 0" in l and c == 0 for l, c in dl)
-            if zero:
-                ok = isinstance(val, tuple) and len(val) == 2 and val[0] == XS and val[1] == YS
+            if not (isinstance(val, (tuple, list)) and len(val) == 2):
+                ctx.ob(False, Finding("C18.K-spline", fi.where, "shape", f"bspline returns {val!r}; (xs, ys) required"))
+                continue
+            if deg == 0:
+                ok = eq_arrays(val[0], XS) and eq_arrays(val[1], YS)
                 ctx.ob(ok, Finding("C18.K-spline", fi.where, "degree0", f"degree 0 must return the data unchanged; returns {val!r}"), nontrivial_key=("deg0",))
                 continue
-            sv = cp.get("splev")
+            sv = cp.get("splev") or []
             ok = False
-            why = "the smoothed curve is not evaluated as a B-spline whose control points are the data (no splev(u, (knots, data.T, degree)) call): " \
+            why = "the smoothed curve is not evaluated as a B-spline whose control points are the data (no single splev(u, (knots, data.T, degree)) call): " \
                   "an interpolating spline through the points over- and undershoots, so non-negative contributions can yield a negative distribution"
-            if sv:
-                tck = sv[1]
+            if len(sv) == 1:
+                tck = sv[0][1]
                 why = f"tck = {tck!r}"
-                if isinstance(tck, tuple) and len(tck) == 3:
+                if isinstance(tck, (tuple, list)) and len(tck) == 3:
                     c = tck[1]
-                    cvT = Term(".T", [Term("numpy.stack", [(XS, YS)], {"axis": Num.const(-1)})])
-                    ok = isinstance(c, Term) and c == cvT
+                    ok = eq_arrays(c, numpy.array([list(XS), list(YS)], dtype=object))
                     why = f"spline coefficients are {c!r}; the data themselves (numpy.stack((xs, ys), axis=-1).T) required as control points"
             ctx.ob(ok, Finding("C18.K-spline", fi.where, "control-points", why), nontrivial_key=("cv",))
-            # both outputs are projections of the same evaluation
-            okp = isinstance(val, tuple) and len(val) == 2 and all(_proj_of(v, i) for i, v in enumerate(val))
-            ctx.ob(okp, Finding("C18.K-spline", fi.where, "outputs", f"returned {val!r}: column 0 / column 1 of one splev evaluation required"),
+            # both outputs are the two coordinate rows of the same evaluation
+            m = len(val[0]) if isinstance(val[0], numpy.ndarray) else 0
+            ev = sym_array("s", 2, m, real=True) if m else None
+            okp = ev is not None and eq_arrays(val[0], ev[0]) and eq_arrays(val[1], ev[1])
+            ctx.ob(okp, Finding("C18.K-spline", fi.where, "outputs", f"returned {val!r}: x row / y row of one splev evaluation required"),
                    nontrivial_key=("proj",))
-    ctx.floor("bspline returning paths", n, 2)
-
-
-def _proj_of(v, i):
-    """numpy.array([e[i] for e in <splev result transposed>])"""
-    v = norm(v)
-    if isinstance(v, list) and len(v) == 1 and isinstance(v[0], Term) and v[0].op == "getitem" and is_const(v[0].args[1], i):
-        base = v[0].args[0]
-        return isinstance(base, Term) and base.op == "elem" and any(isinstance(s, Term) and s.op == "splev" for s in base.subterms())
-    return False
+    ctx.floor("bspline returning paths", n, 4)
 
 
 def r_data(ctx: Ctx, model):
@@ -687,9 +712,10 @@ def run(ctx: Ctx):
 
 
 META = {
-    "technique": "abstract interpretation over uninterpreted array terms (path-enumerating) of psd_dft / psd_dft_kernel_fit / "
-                 "_load_kernel / bspline with summarised optimiser and interpolator constructors; term matching against the "
-                 "fit equations; non-interference walk for the pressure limits; static lint of the shipped kernel table",
+    "technique": "abstract interpretation (path-enumerating) of psd_dft / psd_dft_kernel_fit / _load_kernel / bspline with summarised "
+                 "optimiser, interpolator constructors and splev; array algebra evaluated on symbolic elements (numpy object arrays "
+                 "of sympy terms, small fixed instance) and compared with the fit equations by exact normalisation [ALG]; "
+                 "non-interference walk over terms for the pressure limits; static lint of the shipped kernel table",
     "level_text": "Static: on every path of the kernel fit the optimiser call (bounds, method), its objective, the success test, "
                   "the reported fitted isotherm, the distribution / cumulative-volume formulas over the returned arrays, the "
                   "out-of-range refusal (interpolator constructor semantics + exception conversion) and the flow of unsliced "
